@@ -883,9 +883,6 @@ def coq_subcase(sub, txns, today, tabs_src, stats, with_text=True):
     pats = set()
     for r in sub['loaded']:
         pats.add(r['p'])
-        u = tabs_src['lit'].get(r['p'])
-        if u is not None:
-            pats.add(u)
     tbl, txs = [], []
     texts = set()
     for i, t in enumerate(txns):
@@ -909,6 +906,8 @@ def coq_subcase(sub, txns, today, tabs_src, stats, with_text=True):
         lx = []
         bad = False
         for p, row in tabs_src['lx']:
+            if p not in pats or not is_expr_pattern(p):      # only the legacy-expression answers this sub-case can use
+                continue
             if isinstance(row[i], str):
                 bad = True
             else:
@@ -957,7 +956,7 @@ def model_check(cases, results, today, stats, chunk=120):
                 'upper': {t['d']: res['upper'][k] for k, t in enumerate(case['txns'])}}
         subs = [('file', res)]
         alone = res.get('alone') or []
-        if len(alone) == len(res['loaded']) and all(a.get('n_loaded') == 1 for a in alone):
+        if len(alone) == len(res['loaded']) > 1 and all(a.get('n_loaded') == 1 for a in alone):
             for j, a in enumerate(alone):
                 a = dict(a)
                 a['loaded'] = [res['loaded'][j]]
